@@ -111,9 +111,13 @@ def _resolve_index(op, n):
         return sl, sl
     if kind == "mask":
         bits = [bool(op["bits"][i % len(op["bits"])]) for i in range(n)] if op["bits"] else [False] * n
+        if op.get("as_list") and bits:
+            return bits, list(bits)          # the mask handed over as a Python list of bools
         return bits, np.array(bits, dtype=bool)
     if kind == "ilist":
         idx = [(i % (2 * n)) - n for i in op["idx"]] if n else []
+        if op.get("as_list") and idx:
+            return idx, list(idx)            # the row numbers handed over as a Python list
         return idx, np.array(idx, dtype=int)
     if kind == "perm":
         # a selection of the same length as the table that is not the identity: reversal, rotation or swapped neighbours
@@ -220,6 +224,8 @@ def classify(case):
         cl.append("repeats")
     if any((op["op"] == "mask" and not any(op["bits"])) or (op["op"] == "ilist" and not op["idx"]) for op in prog):
         cl.append("empty-selection")
+    if any(op["op"] == "mask" and op.get("as_list") for op in prog):
+        cl.append("mask-as-python-list")
     sel = ("slice", "mask", "ilist", "perm")
     if "perm" in kinds:
         cl.append("same-length-permutation")
@@ -415,8 +421,10 @@ def op_strategy(fmt):
     sl = st.builds(lambda a, b, c: {"op": "slice", "src": 0, "start": a, "stop": b, "step": c},
                    st.one_of(st.none(), small), st.one_of(st.none(), small),
                    st.one_of(st.none(), st.sampled_from([1, 2, 3, -1, -2, -3])))
-    mask = st.lists(st.booleans(), min_size=1, max_size=8).map(lambda b: {"op": "mask", "src": 0, "bits": [int(x) for x in b]})
-    ilist = st.lists(st.integers(0, 40), min_size=0, max_size=8).map(lambda i: {"op": "ilist", "src": 0, "idx": i})
+    mask = st.builds(lambda b, al: {"op": "mask", "src": 0, "bits": [int(x) for x in b], **({"as_list": 1} if al else {})},
+                     st.lists(st.booleans(), min_size=1, max_size=8), st.integers(0, 3).map(lambda v: v == 0))
+    ilist = st.builds(lambda i, al: {"op": "ilist", "src": 0, "idx": i, **({"as_list": 1} if al else {})},
+                      st.lists(st.integers(0, 40), min_size=0, max_size=8), st.integers(0, 3).map(lambda v: v == 0))
     concat = st.tuples(st.integers(0, 9), st.integers(0, 9)).map(lambda t: {"op": "concat", "srcs": list(t)})
     repl = st.builds(lambda f, s: {"op": "replace", "src": 0, "field": f, "seed": s},
                      st.sampled_from(sorted(REPL[fmt])), st.integers(0, 1000))
